@@ -35,9 +35,10 @@ pub assume_specification[i32::saturating_add](a: i32, b: i32) -> (r: i32)
     ensures r == (if a + b > i32::MAX { i32::MAX as int } else if a + b < i32::MIN { i32::MIN as int } else { a + b });
 }
 verus! {
-// [trusted] String::len is the UTF-8 byte length (uninterpreted): widens the accepted subset, no proof depends on its value
-pub uninterp spec fn spec_utf8_len(s: Seq<char>) -> usize;
-pub assume_specification[String::len](s: &String) -> (r: usize) ensures r == spec_utf8_len(s@);
+// [trusted] String::len is the length of the UTF-8 encoding (the encoding itself is uninterpreted); a String never exceeds isize::MAX bytes
+pub uninterp spec fn spec_utf8(s: Seq<char>) -> Seq<u8>;
+pub open spec fn spec_utf8_len(s: Seq<char>) -> usize { spec_utf8(s).len() as usize }
+pub assume_specification[String::len](s: &String) -> (r: usize) ensures r == spec_utf8_len(s@), r == spec_utf8(s@).len(), r <= isize::MAX;
 // [trusted] std integer helpers a refactoring is likely to reach for (widen the accepted subset; std semantics as documented)
 pub assume_specification[u64::next_multiple_of](x: u64, m: u64) -> (r: u64)
     requires m != 0, x + m <= u64::MAX,
